@@ -65,7 +65,8 @@ def run(ctx):
     designs.append(("permute_rows [[1,2,3],[4,5,5]]", "permute_rows", lambda g, m=m: tuple(map(tuple, utils.permute_rows(m, g).tolist())), adm,
                     tuple((3 - i, "fy") for i in range(3)) * 2))
     # randomize_group / randomize_in_strata
-    for labels, strata in ((["T", "T", "C", "C"], None), ([0, 1, 1, 2], None), ([0, 0, 1, 1, 1], [1, 1, 2, 2, 2]), (["a", "b", "a", "b"], [5, 5, 9, 9])):
+    for labels, strata in ((["T", "T", "C", "C"], None), ([0, 1, 1, 2], None), ([0, 0, 1, 1, 1], [1, 1, 2, 2, 2]), (["a", "b", "a", "b"], [5, 5, 9, 9]),
+                           ([0, 1, 1, 0, 2], [1, 0, 0, 1, 1]), (["p", "q", "r", "s", "t", "u"], ["u", "v", "v", "u", "u", "v"]), ([0, 1, 2, 3], [7, 3, 7, 3])):      # strata that are not contiguous blocks
         n = len(labels)
         if strata is None:
             adm = multiset_perms(labels); ar = tuple((n - i, "randint") for i in range(n))
